@@ -160,42 +160,53 @@ theorem sorterIdx_split (h : String) (pre post : List String) (hn : h ∉ post) 
     sorterIdx (pre ++ h :: post) h = pre.length := by
   unfold sorterIdx; rw [sorterGo_split h pre post 0 0 hn]; simp
 
-/-- in a duplicate-free manifest, a layer after `b` is a child of `b` … -/
-theorem later_of_mem_post {pre post : List String} {a b : String} (hnd : (pre ++ b :: post).Nodup) (ha : a ∈ post) :
+theorem exists_last_occurrence {a : String} {l : List String} (h : a ∈ l) : ∃ p1 p2, l = p1 ++ a :: p2 ∧ a ∉ p2 := by
+  induction l with
+  | nil => simp at h
+  | cons x l ih =>
+    by_cases hl : a ∈ l
+    · obtain ⟨p1, p2, h1, h2⟩ := ih hl
+      exact ⟨x :: p1, p2, by simp [h1], h2⟩
+    · rcases List.mem_cons.1 h with h1 | h1
+      · subst h1; exact ⟨[], l, rfl, hl⟩
+      · exact absurd h1 hl
+
+/-- a layer after the last occurrence of `b` is a child of `b` … -/
+theorem later_of_mem_post {pre post : List String} {a b : String} (hb : b ∉ post) (ha : a ∈ post) :
     sorterIdx (pre ++ b :: post) a > sorterIdx (pre ++ b :: post) b := by
-  obtain ⟨p1, p2, hp⟩ := List.append_of_mem ha
-  have hnd' := hnd
-  rw [List.nodup_append] at hnd
-  obtain ⟨_, hbp, _⟩ := hnd
-  rw [List.nodup_cons] at hbp
-  have hb : sorterIdx (pre ++ b :: post) b = pre.length := sorterIdx_split b pre post hbp.1
-  have hpost : post.Nodup := hbp.2
-  rw [hp, List.nodup_append] at hpost
-  have ha2 : a ∉ p2 := (List.nodup_cons.1 hpost.2.1).1
+  obtain ⟨p1, p2, hp, ha2⟩ := exists_last_occurrence ha
+  have hbi : sorterIdx (pre ++ b :: post) b = pre.length := sorterIdx_split b pre post hb
   have : pre ++ b :: post = (pre ++ b :: p1) ++ a :: p2 := by rw [hp]; simp
-  rw [hb, this, sorterIdx_split a _ p2 ha2]
+  rw [hbi, this, sorterIdx_split a _ p2 ha2]
   simp
 
-/-- … and `b` itself or a layer before it is not. -/
-theorem not_later_of_mem_pre {pre post : List String} {a b : String} (hnd : (pre ++ b :: post).Nodup)
+/-- … and `b` itself, or a layer before it that does not occur again later, is not. -/
+theorem not_later_of_mem_pre {pre post : List String} {a b : String} (hb : b ∉ post) (ha2 : a ∉ post)
     (ha : a ∈ pre ∨ a = b) :
     ¬ sorterIdx (pre ++ b :: post) a > sorterIdx (pre ++ b :: post) b := by
-  have hnd' := hnd
-  rw [List.nodup_append] at hnd
-  obtain ⟨_, hbp, hdis⟩ := hnd
-  rw [List.nodup_cons] at hbp
-  have hb : sorterIdx (pre ++ b :: post) b = pre.length := sorterIdx_split b pre post hbp.1
-  rcases ha with ha | ha
-  · obtain ⟨p1, p2, hp⟩ := List.append_of_mem ha
-    have hnd2 : (p1 ++ a :: (p2 ++ b :: post)).Nodup := by
+  have hbi : sorterIdx (pre ++ b :: post) b = pre.length := sorterIdx_split b pre post hb
+  by_cases hab : a = b
+  · subst hab; omega
+  · rcases ha with ha | ha
+    · obtain ⟨p1, p2, hp, hp2⟩ := exists_last_occurrence ha
+      have hnot : a ∉ p2 ++ b :: post := by
+        intro hm
+        rcases List.mem_append.1 hm with h | h
+        · exact hp2 h
+        · rcases List.mem_cons.1 h with h | h
+          · exact hab h
+          · exact ha2 h
       have : pre ++ b :: post = p1 ++ a :: (p2 ++ b :: post) := by rw [hp]; simp
-      rw [← this]; exact hnd'
-    rw [List.nodup_append] at hnd2
-    have ha2 : a ∉ p2 ++ b :: post := (List.nodup_cons.1 hnd2.2.1).1
-    have : pre ++ b :: post = p1 ++ a :: (p2 ++ b :: post) := by rw [hp]; simp
-    rw [hb, this, sorterIdx_split a p1 _ ha2, hp]
-    simp
-  · subst ha; omega
+      rw [hbi, this, sorterIdx_split a p1 _ hnot, hp]
+      simp
+    · exact absurd ha hab
+
+theorem count_one_split {hs pre post : List String} {h : String} (hdec : hs = pre ++ h :: post)
+    (hc : hs.count h = 1) : h ∉ pre ∧ h ∉ post := by
+  rw [hdec, List.count_append, List.count_cons_self] at hc
+  have h1 : List.count h pre = 0 := by omega
+  have h2 : List.count h post = 0 := by omega
+  exact ⟨List.count_eq_zero.1 h1, List.count_eq_zero.1 h2⟩
 
 /-! ### the language coalescer, exactly: per id, the last layer (with a repository) holding it -/
 
@@ -756,8 +767,9 @@ theorem lastMention_of_decomp {d : String} {pre post : List Layer} {a : Layer}
     Each clause is a restriction the unchanged code needs (see the `…_counterexample` theorems
     and the recorded findings). -/
 structure Tame (S : Scanners) (layers : List FSLayer) : Prop where
-  /-- the digest of a layer identifies it (no duplicate layers) -/
-  hashes : (layers.map (·.hash)).Nodup
+  /-- a layer that carries a whiteout or a language package occurs once in the manifest
+      (empty or otherwise uninvolved layers may repeat) -/
+  hashes : ∀ l ∈ layers, (whiteoutsOf l ≠ [] ∨ langPkgs S l ≠ []) → (layers.map (·.hash)).count l.hash = 1
   /-- a layer lists a path once -/
   paths : ∀ l ∈ layers, (l.entries.map (·.1)).Nodup
   /-- at most one whiteout entry per layer, and it is a regular file (finding whiteout-one-per-layer) -/
@@ -770,9 +782,10 @@ structure Tame (S : Scanners) (layers : List FSLayer) : Prop where
     hides l p.fp = (whiteoutFiles l).any fun w => covers w p.fp
   /-- an OS package database is never hidden and never lists nothing (findings os-db-removed, os-db-emptied) -/
   osDb : ∀ d ∈ S.osDbs, ∀ l ∈ layers, hides l d = false ∧ ∀ c ∈ fileOf l d, S.scanDB d c ≠ []
-  /-- a language package file is not overwritten by a later layer with another package (finding lang-overwrite-in-place) -/
+  /-- a language package file is not overwritten by a later layer with another package, unless that
+      layer also whites the old one out (finding lang-overwrite-in-place) -/
   noOverwrite : layers.Pairwise fun l l' => ∀ e ∈ l.entries, ∀ c ∈ fileOf l e.1, ∀ p ∈ S.scanFile e.1 c,
-    ∀ c' ∈ fileOf l' e.1, ∃ p' ∈ S.scanFile e.1 c', p'.id = p.id
+    ∀ c' ∈ fileOf l' e.1, (∃ p' ∈ S.scanFile e.1 c', p'.id = p.id) ∨ hides l' e.1 = true
   /-- a language package id lives at one path (finding lang-same-package-two-paths) -/
   onePath : ∀ l ∈ layers, ∀ l' ∈ layers, ∀ p ∈ langPkgs S l, ∀ p' ∈ langPkgs S l', p.id = p'.id → p.fp = p'.fp
   /-- OS package ids and language package ids are different (in the real store they differ in arch / kind) -/
@@ -781,14 +794,14 @@ structure Tame (S : Scanners) (layers : List FSLayer) : Prop where
 
 /-- `Tame` is decidable: every clause is a bounded check over the stack. -/
 instance instDecidableTame (S : Scanners) (layers : List FSLayer) : Decidable (Tame S layers) :=
-  let A1 := (layers.map (·.hash)).Nodup
+  let A1 := ∀ l ∈ layers, (whiteoutsOf l ≠ [] ∨ langPkgs S l ≠ []) → (layers.map (·.hash)).count l.hash = 1
   let A2 := ∀ l ∈ layers, (l.entries.map (·.1)).Nodup
   let A3 := ∀ l ∈ layers, (whiteoutsOf l).length ≤ 1 ∧ whiteoutsOf l = whiteoutFiles l
   let A4 := ∀ l ∈ layers, ∀ w ∈ whiteoutsOf l, ¬ (base w = opqName ∧ dir w = ".")
   let A5 := ∀ l ∈ layers, ∀ l' ∈ layers, ∀ p ∈ langPkgs S l', hides l p.fp = (whiteoutFiles l).any fun w => covers w p.fp
   let A6 := ∀ d ∈ S.osDbs, ∀ l ∈ layers, hides l d = false ∧ ∀ c ∈ fileOf l d, S.scanDB d c ≠ []
   let A7 := layers.Pairwise fun l l' => ∀ e ∈ l.entries, ∀ c ∈ fileOf l e.1, ∀ p ∈ S.scanFile e.1 c,
-      ∀ c' ∈ fileOf l' e.1, ∃ p' ∈ S.scanFile e.1 c', p'.id = p.id
+      ∀ c' ∈ fileOf l' e.1, (∃ p' ∈ S.scanFile e.1 c', p'.id = p.id) ∨ hides l' e.1 = true
   let A8 := ∀ l ∈ layers, ∀ l' ∈ layers, ∀ p ∈ langPkgs S l, ∀ p' ∈ langPkgs S l', p.id = p'.id → p.fp = p'.fp
   let A9 := ∀ d ∈ S.osDbs, ∀ l ∈ layers, ∀ c ∈ fileOf l d, ∀ p ∈ S.scanDB d c,
       ∀ l' ∈ layers, ∀ p' ∈ langPkgs S l', p.id ≠ p'.id
@@ -813,6 +826,13 @@ instance instDecidableTame (S : Scanners) (layers : List FSLayer) : Decidable (T
     ⟨fun ⟨a, b, c, d, e, f, g, h, i⟩ => ⟨a, b, c, d, e, f, g, h, i⟩,
      fun ⟨a, b, c, d, e, f, g, h, i⟩ => ⟨a, b, c, d, e, f, g, h, i⟩⟩
 
+/-- the driver's Boolean check is the predicate `Tame` -/
+theorem tameB_iff (S : Scanners) (layers : List FSLayer) : tameB S layers = true ↔ Tame S layers := by
+  unfold tameB
+  simp only [Bool.and_eq_true, decide_eq_true_eq]
+  exact ⟨fun ⟨⟨⟨⟨⟨⟨⟨⟨a, b⟩, c⟩, d⟩, e⟩, f⟩, g⟩, h⟩, i⟩ => ⟨a, b, c, d, e, f, g, h, i⟩,
+    fun ⟨a, b, c, d, e, f, g, h, i⟩ => ⟨⟨⟨⟨⟨⟨⟨⟨a, b⟩, c⟩, d⟩, e⟩, f⟩, g⟩, h⟩, i⟩⟩
+
 theorem whiteoutsOf_isWhiteout {l : FSLayer} {w : String} (h : w ∈ whiteoutsOf l) : isWhiteout w = true := by
   unfold whiteoutsOf at h
   obtain ⟨e, _, he⟩ := List.mem_filterMap.1 h
@@ -834,6 +854,14 @@ theorem Tame.delSpec {S : Scanners} {layers : List FSLayer} (ht : Tame S layers)
       ∀ l' ∈ layers, ∀ p ∈ langPkgs S l', fileIsDeleted p.fp w = covers w p.fp :=
   fun l hl w hw => ⟨fileIsDeleted_nofp w,
     fun _ _ p _ => fileIsDeleted_eq_covers p.fp w (whiteoutsOf_isWhiteout hw) (ht.noRootOpaque l hl w hw)⟩
+
+/-- a layer carrying a whiteout or a language package has a digest no other position of the manifest has -/
+theorem Tame.hash_once {S : Scanners} {layers : List FSLayer} (ht : Tame S layers)
+    {pre post : List FSLayer} {l : FSLayer} (hdec : layers = pre ++ l :: post)
+    (hl : whiteoutsOf l ≠ [] ∨ langPkgs S l ≠ []) :
+    l.hash ∉ pre.map (·.hash) ∧ l.hash ∉ post.map (·.hash) := by
+  have hc := ht.hashes l (by rw [hdec]; simp) hl
+  exact count_one_split (by rw [hdec]; simp) hc
 
 /-! ### artifacts of a layer -/
 
@@ -1137,14 +1165,13 @@ theorem merged_files_has {S : Scanners} {layers : List FSLayer} (ht : Tame S lay
     {w : String} (hw : whiteoutsOf l = [w]) :
     (l.hash, { path := w, kind := whiteoutKind }) ∈ (merged S layers).files := by
   obtain ⟨pre, post, hdec⟩ := List.append_of_mem hl
-  have hnd := ht.hashes
-  rw [hdec, List.map_append, List.map_cons, List.nodup_append] at hnd
+  have honce := ht.hash_once hdec (Or.inl (by rw [hw]; simp))
   have hpost : ∀ b ∈ post.map whArts, b.hash ≠ (whArts l).hash := by
     intro b hb
     obtain ⟨l', hl', hbe⟩ := List.mem_map.1 hb
     subst hbe
     intro heq
-    have : l.hash ∉ post.map (·.hash) := (List.nodup_cons.1 hnd.2.1).1
+    have : l.hash ∉ post.map (·.hash) := honce.2
     apply this
     simp only [whArts] at heq
     rw [← heq]; exact List.mem_map.2 ⟨l', hl', rfl⟩
@@ -1183,11 +1210,10 @@ theorem pkgDeleted_nofp {S : Scanners} {layers : List FSLayer} (ht : Tame S laye
 /-- for a language package whose newest environment is layer `l`: the resolver deletes it exactly
     when a later layer hides its file -/
 theorem pkgDeleted_iff_hidden {S : Scanners} {layers : List FSLayer} (ht : Tame S layers)
-    {pre post : List FSLayer} {l : FSLayer} (hdec : layers = pre ++ l :: post)
+    {pre post : List FSLayer} {l : FSLayer} (hdec : layers = pre ++ l :: post) {pl : Pkg} (hpl : pl ∈ langPkgs S l)
     {l0 : FSLayer} (hl0 : l0 ∈ layers) {p : Pkg} (hp : p ∈ langPkgs S l0) :
     pkgDeleted (layers.map (·.hash)) (merged S layers).files p l.hash = true ↔ ∃ l' ∈ post, hides l' p.fp = true := by
-  have hnd : (pre.map (·.hash) ++ l.hash :: post.map (·.hash)).Nodup := by
-    have := ht.hashes; rw [hdec] at this; simpa using this
+  have hlonce := ht.hash_once hdec (Or.inr (by intro e; rw [e] at hpl; simp at hpl))
   have hmap : layers.map (·.hash) = pre.map (·.hash) ++ l.hash :: post.map (·.hash) := by rw [hdec]; simp
   unfold pkgDeleted
   rw [List.any_eq_true]
@@ -1201,12 +1227,18 @@ theorem pkgDeleted_iff_hidden {S : Scanners} {layers : List FSLayer} (ht : Tame 
       rw [hdec] at hl'
       rcases List.mem_append.1 hl' with h | h
       · exfalso
+        obtain ⟨q1, q2, hq⟩ := List.append_of_mem h
+        have hdec' : layers = q1 ++ l' :: (q2 ++ l :: post) := by rw [hdec, hq]; simp
+        have hl'once := ht.hash_once hdec' (Or.inl (by intro e; rw [e] at hw; simp at hw))
+        have hnotpost : l'.hash ∉ post.map (·.hash) := by
+          intro hm; apply hl'once.2; simp only [List.map_append, List.map_cons, List.mem_append, List.mem_cons]
+          exact Or.inr (Or.inr hm)
         rw [hmap, ← hk] at hlater
-        exact not_later_of_mem_pre hnd (Or.inl (List.mem_map.2 ⟨l', h, rfl⟩)) hlater
+        exact not_later_of_mem_pre hlonce.2 hnotpost (Or.inl (List.mem_map.2 ⟨l', h, rfl⟩)) hlater
       · rcases List.mem_cons.1 h with h | h
         · exfalso
           rw [hmap, ← hk, h] at hlater
-          exact not_later_of_mem_pre hnd (Or.inr rfl) hlater
+          exact not_later_of_mem_pre hlonce.2 hlonce.2 (Or.inr rfl) hlater
         · exact h
     refine ⟨l', hpost, ?_⟩
     rw [ht.hidesSpec l' hl' l0 hl0 p hp, List.any_eq_true]
@@ -1229,7 +1261,7 @@ theorem pkgDeleted_iff_hidden {S : Scanners} {layers : List FSLayer} (ht : Tame 
     simp only [Bool.and_eq_true, decide_eq_true_eq]
     refine ⟨⟨by simp, ?_⟩, ?_⟩
     · rw [hmap]
-      exact later_of_mem_post hnd (List.mem_map.2 ⟨l', hl', rfl⟩)
+      exact later_of_mem_post hlonce.2 (List.mem_map.2 ⟨l', hl', rfl⟩)
     · rw [(ht.delSpec l' hl'mem w (by rw [hone]; simp)).2 l0 hl0 p hp]; exact hcov
 
 /-! ### which report an id comes from -/
@@ -1429,7 +1461,7 @@ theorem index_eq_flatten {S : Scanners} {layers : List FSLayer} (ht : Tame S lay
             cases hh : hides l' p.fp with
             | false => rfl
             | true =>
-              have := (pkgDeleted_iff_hidden ht hl hlmem hpL).2 ⟨l', hl', hh⟩
+              have := (pkgDeleted_iff_hidden ht hl hpL hlmem hpL).2 ⟨l', hl', hh⟩
               cases es with
               | nil => simp at he
               | cons e0 es0 =>
@@ -1447,14 +1479,19 @@ theorem index_eq_flatten {S : Scanners} {layers : List FSLayer} (ht : Tame S lay
               exfalso
               have hpw := ht.noOverwrite
               rw [hl, List.pairwise_append] at hpw
-              obtain ⟨p', hs0, hid'⟩ := (List.pairwise_cons.1 hpw.2.1).1 l' hl' (q, Entry.file c) hmem c hfile p00 hscan c' hf'
-              have hs' : S.scanFile q c' = some p' := hs0
-              obtain ⟨hm', hw'⟩ := fileOf_some hf'
-              have : ({ p' with fp := q } : Pkg) ∈ langPkgs S l' :=
-                mem_langPkgs.2 ⟨q, c', hm', hw', by simp [langPkgAt, hs']⟩
-              apply hlater l' hl' _ this
-              simp only
-              rw [hid', ← hid00, hpid]
+              rcases (List.pairwise_cons.1 hpw.2.1).1 l' hl' (q, Entry.file c) hmem c hfile p00 hscan c' hf' with
+                ⟨p', hs0, hid'⟩ | hhid
+              · have hs' : S.scanFile q c' = some p' := hs0
+                obtain ⟨hm', hw'⟩ := fileOf_some hf'
+                have : ({ p' with fp := q } : Pkg) ∈ langPkgs S l' :=
+                  mem_langPkgs.2 ⟨q, c', hm', hw', by simp [langPkgAt, hs']⟩
+                apply hlater l' hl' _ this
+                simp only
+                rw [hid', ← hid00, hpid]
+              · have := hnothid l' hl'
+                rw [hfp] at this
+                simp only at hhid
+                rw [this] at hhid; simp at hhid
           refine ⟨p, ?_, hpid, ?_⟩
           · unfold scanImage
             apply List.mem_append_right
@@ -1548,7 +1585,7 @@ theorem index_eq_flatten {S : Scanners} {layers : List FSLayer} (ht : Tame S lay
           | false => rfl
           | true =>
             exfalso
-            obtain ⟨l', hl', hh⟩ := (pkgDeleted_iff_hidden ht hl hlmem hpl).1 hd
+            obtain ⟨l', hl', hh⟩ := (pkgDeleted_iff_hidden ht hl hpl hlmem hpl).1 hd
             rw [hfp, (hpost l' hl').2] at hh; simp at hh
       have := hex_id S layers ht r hr pL.id pL hMp hdel
       refine ⟨ws, by rw [← hid, this]; exact hws, langEnv a pL, hmem, by rw [← hdb]; rfl⟩
